@@ -86,7 +86,7 @@ def run(ctx):
     for name, mk, task, kw in variants():
         entries.append((name, mk, task, kw, None))
     rng = ctx.rng("c05")
-    reps = 2 if ctx.is_quick else 10
+    reps = 4 if ctx.is_quick else 12
     for name, mk, task, kw, E in entries:
         for h in range(reps):
             binary = bool(E and E.binary)
@@ -99,6 +99,23 @@ def run(ctx):
                 kwargs["sample_weight"] = rng.integers(1, 5, size=len(y)).astype(float)
             if "utility_weight" in sig and h % 2 == 1 and not (E and E.wrapper):
                 kwargs["utility_weight"] = np.ones(int(np.sum(np.isnan(y))))
+            # candidates: not given / index array / 2-D float array of feature rows (the caller's own array object)
+            cmode = ["none", "idx", "rows", "none"][h % 4]
+            unl_ = np.flatnonzero(np.isnan(y))
+            if cmode == "idx" and len(unl_) and "utility_weight" not in kwargs:
+                kwargs["candidates"] = unl_[: max(1, len(unl_) - 1)].copy()
+            elif cmode == "rows" and len(unl_) and (E is None or E.feat) and "utility_weight" not in kwargs:
+                kwargs["candidates"] = np.ascontiguousarray(X[unl_], dtype=float)
+            # a model that works IN PLACE on whatever array it is handed (StandardScaler(copy=False)): any layer that passes the
+            # caller's array on without a private copy lets it be rewritten
+            if h % 4 >= 2:
+                for key in ("clf", "reg"):
+                    if key in kwargs and type(kwargs[key]).__name__ in ("ParzenWindowClassifier", "SklearnClassifier", "SklearnRegressor", "NICKernelRegressor") \
+                            and name.split("{")[0] not in ("FourDs", "Quire", "CostEmbeddingAL", "ProbabilisticAL", "EpistemicUncertaintySampling", "EpistemicUncertaintySampling[precompute]",
+                                                           "MonteCarloEER", "ValueOfInformationEER", "ExpectedModelOutputChange", "ExpectedModelVarianceReduction",
+                                                           "KLDivergenceMaximization", "KLDivergenceMaximization[monte_carlo]", "RegressionTreeBasedAL[random]",
+                                                           "RegressionTreeBasedAL[diversity]", "RegressionTreeBasedAL[representativity]"):
+                        kwargs[key] = inplace_model(key, classes, seed)
             bs = 1 if (E and E.max_bs) else int(rng.integers(1, 3))
             arrays = {"X": X, "y": y}
             arrays.update({k: v for k, v in kwargs.items() if isinstance(v, np.ndarray)})
@@ -154,6 +171,17 @@ def run(ctx):
     multi_annotator(ctx, rng)
     ctx.sample({"strategy": entries[1][0], "checked": ["get_params(deep=True)", "model arguments", "input arrays", "pickle", "clone"]})
     ctx.extra["exhaustive"] = False
+
+
+def inplace_model(kind, classes, seed):
+    from sklearn.linear_model import LinearRegression, LogisticRegression
+    from sklearn.pipeline import make_pipeline
+    from sklearn.preprocessing import StandardScaler
+    from skactiveml.classifier import SklearnClassifier
+    from skactiveml.regressor import SklearnRegressor
+    if kind == "clf":
+        return SklearnClassifier(make_pipeline(StandardScaler(copy=False), LogisticRegression()), classes=list(classes), random_state=seed)
+    return SklearnRegressor(make_pipeline(StandardScaler(copy=False), LinearRegression()), random_state=seed)
 
 
 # strategies whose repeated calls legitimately differ only because of the recorded C06 findings (global generator)
